@@ -107,7 +107,7 @@ def rand_ops(rng):
             ops.append(['meta', FIELDS[int(rng.integers(0, len(FIELDS)))], int(rng.integers(0, 1 << 30))])
         elif k <= 6:
             ops.append(['foreign', ['valid_tsv', 'valid_csv', 'empty', 'header_only', 'garbage', 'ragged', 'no_cluster_id',
-                                    'cluster_info', 'csv_same_field_late', 'csv_same_field_early'][int(rng.integers(0, 10))]])
+                                    'cluster_info', 'csv_same_field_late', 'csv_same_field_early', 'comma_tsv'][int(rng.integers(0, 11))]])
         elif k == 7:
             ops.append(['subset', int(rng.integers(1, 6)), int(rng.integers(1, 4)), [1.0, 1, 2.5][int(rng.integers(0, 3))]])
         elif k == 8:
@@ -128,6 +128,7 @@ FOREIGN = {
     # whatever the file is called; without such a TSV the CSV column is the field
     'csv_same_field_late': ('manual_labels.csv', 'cluster_id,quality,other9\n0,CSV,1\n1,CSV,2\n', {'quality': {0: 'CSV', 1: 'CSV'}, 'other9': {0: 1, 1: 2}}),
     'csv_same_field_early': ('a_first.csv', 'cluster_id,my note,other8\n0,CSV,5\n2,CSV,6\n', {'my note': {0: 'CSV', 2: 'CSV'}, 'other8': {0: 5, 2: 6}}),
+    'comma_tsv': ('cluster_commas.tsv', 'cluster_id,cfield\n0,1\n3,x y\n', {'cfield': {0: 1, 3: 'x y'}}),       # delimiter sniffed, not the suffix
     'no_cluster_id': ('other.csv', 'id,thing\n0,1\n1,2\n', {}),
     'cluster_info': ('cluster_info.tsv', 'cluster_id\tgroup\tquality\n0\tINFO\t999\n1\tINFO\t999\n', {}),
 }
